@@ -147,7 +147,7 @@ def call_function(I, st, fv: FuncVal, args, kwargs, node):
         finally:
             st.env = saved
 
-    if fv.qualname:
+    if fv.qualname and fv.env is None:
         I.ctx.note_inlined(fv)
     saved_env = st.env
     saved_handlers = None
@@ -730,7 +730,11 @@ def list_method(I, st, ref, o: ListObj, name, args, kwargs, node):
                 return None
         else:
             n2, g2 = sym_iter_view(I, st, src)
+        was_empty = o.concrete and not o.items
         o.items = None
+        if was_empty:
+            o.length, o.get = z3.simplify(to_z3(n2)), g2
+            return None
         o.length = z3.simplify(n1 + n2)
         o.get = lambda j, n1=n1, g1=g1, g2=g2: ite(st, to_z3(j) < n1, g1(j), g2(z3.simplify(to_z3(j) - n1)))
         return None
